@@ -4,8 +4,11 @@
 mod c06;
 mod c07;
 mod c08;
+mod c01;
+mod c17;
 mod enc;
 mod out;
+mod redisx;
 mod rng;
 
 use std::path::PathBuf;
@@ -53,6 +56,8 @@ fn main() {
         "C06" => c06::run(&a),
         "C07" => c07::run(&a),
         "C08" => c08::run(&a),
+        "C01" => c01::run(&a),
+        "C17" => c17::run(&a),
         _ => {
             eprintln!("no harness for {}", prop);
             std::process::exit(2);
